@@ -798,7 +798,7 @@ def check_c06(prop, tier, seed, replay_file=None):
     else:
         for spec in (ECON_SIM, ECON2_SIM, FEES_SIM, ORACLE_SIM, VALSET_SIM):
             sp = dict(spec)
-            sp["num"] = (12, 200)
+            sp["num"] = (12, 60)
             s, st = simulate_scripts(sp, workdir, tier, dev, seed)
             log("[%s] simulation %s: %d behaviours" % (prop, spec["cfg"], len(s)))
             scripts += s
@@ -872,7 +872,7 @@ def check_c15(prop, tier, seed, replay_file=None):
     else:
         for spec in (ECON_SIM, FEES_SIM, ORACLE_SIM, VALSET_SIM, ATTEST_SIM):
             sp = dict(spec)
-            sp["num"] = (10, 120)
+            sp["num"] = (10, 24)     # thorough: every third block boundary of every behaviour is exported (TLC consumes ~40 round trips a minute)
             s, st = simulate_scripts(sp, workdir, tier, dev, seed)
             scripts += s
         scripts += load_static(["econ_basic.ndjson", "valset_rereg.ndjson", "fees*.ndjson", "genesis*.ndjson"])
@@ -881,7 +881,7 @@ def check_c15(prop, tier, seed, replay_file=None):
         for sc in scripts:
             f.write(json.dumps(sc) + "\n")
     out = os.path.join(workdir, "genesis.ndjson")
-    cmd = [vh, "genesis", "-scripts", sp, "-out", out] + (["-pick", str(seed)] if tier == "quick" else ["-every", "2"])
+    cmd = [vh, "genesis", "-scripts", sp, "-out", out] + (["-pick", str(seed)] if tier == "quick" else ["-every", "3"])
     p, rt = run(cmd, 3000)
     if p.returncode != 0:
         sys.stdout.write(p.stdout.decode(errors="replace")[-2000:])
